@@ -180,7 +180,7 @@ def stock_source(path, clsname, methods):
   return "\n".join(out) + "\n"
 
 
-TF_KERAS = "/venv/lib/python3.12/site-packages/tf_keras/src/layers/rnn/"
+TF_KERAS = "/venv/lib/python3.12/site-packages/tf_keras/src/layers/"
 
 
 def relational(cls_path, weights, extra_attrs=None, call_args=None, bias_flag="use_bias", extra_check=None, stock=None):
@@ -387,8 +387,8 @@ def cases(tier):
             continue                      # the cells always apply their activation
           if not p["use_bias"] and p["q"][2]:
             continue
-          stock = ("lstm.py", "LSTMCell", ("call", "_compute_carry_and_output", "_compute_carry_and_output_fused")) \
-              if cname == "QLSTMCell" else ("gru.py", "GRUCell", ("call",))
+          stock = ("rnn/lstm.py", "LSTMCell", ("call", "_compute_carry_and_output", "_compute_carry_and_output_fused")) \
+              if cname == "QLSTMCell" else ("rnn/gru.py", "GRUCell", ("call",))
           mk = relational("qkeras/qrecurrent.py::" + cname, cell_w, extra_attrs=cell_attrs, call_args=cell_args(nst), stock=stock)
           nm = "impl%d%s_%s" % (impl, "" if reset_after is None else "_ra%d" % reset_after, pname(p))
           out.append(Case(PROP, "qkeras/qrecurrent.py::%s.call" % cname, nm, mk(p), replay_kind=None,
